@@ -246,6 +246,41 @@ theorem tcp_transparent_total (cfg : Cfg) (P : Parsers) (addr : Bytes) (s : Stre
 
 example : splitHostPort b!"[2001:db8::2]:443" ≠ none ∧ splitHostPort b!"1.2.3.4:80" ≠ none := by decide
 
+/-! ### ownership of the replay buffer
+
+`handleTCPRequest` writes the returned `putback` only after its outbound dial has completed,
+and one `Sniffer` serves every stream of every client: while stream A dials, streams B, C, …
+are sniffed.  The server therefore relies on the returned slice being OWNED by the call.
+
+In this value-threading model that is true by construction and the theorem below is
+deliberately trivial: `sniffTCP` has no state argument, a call on B takes nothing of A's
+output as input, so the result for A inside any sequence of calls is the result of sniffing A
+alone.  It is stated so that the reliance is on record, NOT because it constrains the Go code:
+**slice aliasing (a pooled / package-level / per-Sniffer scratch array behind the returned
+slice) is a Go-level hazard that no theorem here sees.**  It is tied to the code only by
+(a) the harness op `two` — k streams through one real `Sniffer`, every returned slice kept
+uncopied, all oracles (`putback ++ remainder == sent` first of all) evaluated after the last
+stream has been sniffed, diffed against `sniffSeq` — and (b) the regenerated structural facts
+of `const_no_shared_buffer`. -/
+
+/-- k sniffer calls in sequence on one Sniffer (what `hydrv sniff` runs for a `two` op) -/
+def sniffSeq (cfg : Cfg) (calls : List (Parsers × Bytes × Stream)) : List (Res TcpOut) :=
+  calls.map (fun c => sniffTCP cfg c.1 c.2.1 c.2.2)
+
+/-- **putback_owned.** Whatever is sniffed before and after, stream A's result — replay bytes,
+    address, remainder — is what sniffing A alone gives (hence transparent by `tcp_transparent`). -/
+theorem putback_owned (cfg : Cfg) (before after : List (Parsers × Bytes × Stream))
+    (a : Parsers × Bytes × Stream) :
+    (sniffSeq cfg (before ++ a :: after))[before.length]? = some (sniffTCP cfg a.1 a.2.1 a.2.2) := by
+  simp [sniffSeq]
+
+/-- source shape (go/ast over extras/sniff, regenerated on every run): no package-level variable
+    that could hold a shared buffer, no `sync` import (sync.Pool), Sniffer has exactly its four
+    configuration fields and none of slice / pointer / map / chan type; the source was found. -/
+theorem const_no_shared_buffer :
+    1 ≤ Gen.sniff_srcFilesParsed ∧ Gen.sniff_pkgLevelVars = 0 ∧ Gen.sniff_importsSync = 0 ∧
+    Gen.sniff_snifferFields = 4 ∧ Gen.sniff_snifferBufFields = 0 := by decide
+
 /-! ### UDP / QUIC -/
 
 open Hy.Quic in
